@@ -91,7 +91,7 @@ impl Property for C06 {
             _ => prev[5],
         };
         let size = r.reach() + size_of(&c.layers);
-        let tol_p = 1e-6 + 1e-9 * (1.0 + size);
+        let tol_p = back_tol_p(size, &c.layers);
         let tol_a = 1e-6 + 1e-9;
         for s in &sols {
             ensure!(s.iter().all(|x| x.is_finite()), "answers are finite", "{}: {:?}", what, s);
